@@ -669,9 +669,12 @@ class Engine:
         if con is None or when != "before":
             return
         asserts = con.options.get("asserts")
-        if not asserts or isinstance(s, (ast.If, ast.While, ast.For, ast.Try, ast.With, ast.FunctionDef)):
+        if not asserts or isinstance(s, (ast.While, ast.For, ast.Try, ast.With, ast.FunctionDef)):
             return
-        seg = " ".join((frame.module.segment(s) or "").split())
+        if isinstance(s, ast.If):
+            seg = "if " + " ".join((frame.module.segment(s.test) or "").split()) + ":"      # the condition only
+        else:
+            seg = " ".join((frame.module.segment(s) or "").split())
         for label, pattern, exprs in asserts:
             if " ".join(pattern.split()) in seg:
                 self.vf.matched_asserts.add((con.key, label))
@@ -877,10 +880,10 @@ class Engine:
                 self.raise_exc("ValueError", node)
             return [self.wrap_elem(v, v.at(z3.IntVal(i))) for i in range(n)]
         if isinstance(v, VOpaque):
-            # unknown iterable: may have the wrong arity
+            # unknown iterable: may have the wrong arity; its components are ghost projections of it
             if not self.branch(fresh_bool("unpack_ok")):
                 self.raise_exc("ValueError", node)
-            return [VOpaque(tag=f"unpack{i}") for i in range(n)]
+            return [VOpaque(self.models.field_f(i, n)(v.t), tag=f"unpack{i}") for i in range(n)]
         raise OutOfSubset(node, f"unpack of {v!r}")
 
     def wrap_elem(self, seq: VSeq, t):
@@ -1009,7 +1012,7 @@ class Engine:
                     self.assume(hidden[hn].t >= 0)       # iteration counter
                     if hidden.get("__bound__") is not None:
                         self.assume(hidden[hn].t <= hidden["__bound__"].t)      # never beyond the iterable's length
-                elif hn.startswith("_lo"):
+                elif hn.startswith("_lo") or hn.startswith("_pre"):
                     hidden[hn] = VInt(z3.Int(fresh_name(hn)))
             if "__at_head__" in hidden:
                 hidden["__at_head__"](hidden)
@@ -1132,6 +1135,31 @@ class Engine:
                 self.assume(z3.And(0 <= lo, lo <= sseq.n + 1, z3.Or(lo == 0, sseq.at(lo - 1) == sepb)))
             hidden["__advance__"] = advance
             hidden["__at_head__"] = at_head
+        elif isinstance(itd, VChunks):
+            # for chunk in <list of byte strings>: the chunks are consecutive windows of the concatenation.
+            # Hidden state: _it<k> = chunks consumed, _pre<k> = bytes consumed (0 at entry, total at exhaustion)
+            ch = itd
+            hidden = {f"_it{k}": VInt(0), f"_pre{k}": VInt(0)}
+
+            def cond(h):
+                return h[f"_it{k}"].t < ch.count
+
+            def pre_body(h):
+                pre = h[f"_pre{k}"].t
+                ln = fresh_int("chunk_len")
+                self.assume(z3.And(ln >= 0, pre + ln <= ch.join.n))
+                h["__len__"] = ln
+                self.assign(s.target, seq_slice_raw(ch.join, pre, ln, "bytes"), frame)
+
+            def advance(h):
+                h[f"_pre{k}"] = VInt(h[f"_pre{k}"].t + h["__len__"])
+
+            def at_head(h):
+                it_, pre = h[f"_it{k}"].t, h[f"_pre{k}"].t
+                self.assume(z3.And(0 <= it_, it_ <= ch.count, 0 <= pre, pre <= ch.join.n,
+                                   z3.Implies(it_ == ch.count, pre == ch.join.n), z3.Implies(it_ == 0, pre == 0)))
+            hidden["__advance__"] = advance
+            hidden["__at_head__"] = at_head
         elif getattr(itd, "enum_of", None) is not None:
             snap = itd.enum_of
 
@@ -1149,7 +1177,19 @@ class Engine:
 
             def pre_body(h):
                 self.assign(s.target, self.wrap_elem(snap, snap.at(h[f"_it{k}"].t)), frame)
-        elif isinstance(itd, (VOpaque, VChunks, VDict, VSet)) or getattr(it, "iter_opaque", False):
+        elif isinstance(itd, VOpaque) and getattr(itd, "item_type", None) is None and getattr(itd, "split_of", None) is None \
+                and getattr(itd, "range", None) is None:
+            # an untracked iterable: item number i is elem(iterable, i) and there are len_of(iterable) of them, so that
+            # two loops over the same (unmodified) list see the same elements (ghost functions)
+            ln_t = self.models.len_of_f(itd.t)
+            self.assume(ln_t >= 0)
+
+            def cond(h):
+                return h[f"_it{k}"].t < ln_t
+
+            def pre_body(h):
+                self.assign(s.target, VOpaque(self.models.elem_f(itd.t, h[f"_it{k}"].t), "elem"), frame)
+        elif isinstance(itd, (VOpaque, VDict, VSet)) or getattr(it, "iter_opaque", False):
             more = []
 
             def cond(h):
@@ -1170,6 +1210,8 @@ class Engine:
             bound = itd.enum_of.n
         elif isinstance(itd, VSeq):
             bound = itd.n
+        elif isinstance(itd, VOpaque) and getattr(itd, "item_type", None) is None and getattr(itd, "split_of", None) is None:
+            bound = self.models.len_of_f(itd.t)
         hidden["__bound__"] = VInt(bound) if bound is not None else None
         self.cut_loop(s, frame, spec, k, cond, pre_body, s.body, s.orelse, extra_havoc=tnames, hidden=hidden)
 
@@ -1614,20 +1656,29 @@ class Engine:
                 return self.quantifier(fn, e.args[0], frame)
         f = self.eval(e.func, frame)
         args = []
+        dynamic = False
         for a in e.args:
             if isinstance(a, ast.Starred):
                 sv = self.deref(self.eval(a.value, frame))
                 if isinstance(sv, VTuple):
                     args.extend(sv.items)
                 else:
-                    raise OutOfSubset(e, "star-args of non-tuple")
+                    dynamic = True
+                    args.append(sv)
             else:
                 args.append(self.eval(a, frame))
         kwargs = {}
         for k in e.keywords:
             if k.arg is None:
-                raise OutOfSubset(e, "**kwargs call")
+                dynamic = True
+                args.append(self.eval(k.value, frame))
+                continue
             kwargs[k.arg] = self.eval(k.value, frame)
+        if dynamic:
+            if self.spec:
+                raise OutOfSubset(e, "*args/**kwargs call in a spec")
+            # argument list only known at run time: the callee is applied to untracked arguments
+            return self.opaque_call("<call with *args/**kwargs>", args + list(kwargs.values()), e)
         return self.call(f, args, kwargs, e, frame)
 
     def eval_old(self, node, frame):
@@ -1684,7 +1735,13 @@ class Engine:
             self.spec, self.spec_env = saved
 
     def eval_spec_bool(self, expr, frame, extra=None):
-        return self.truth(self.eval_spec(expr, frame, extra))
+        try:
+            return self.truth(self.eval_spec(expr, frame, extra))
+        except EngineError as ex:
+            if "VNone" in str(ex) or "NoneType" in str(ex):
+                # the clause is ill-typed in this state (a value it dereferences is None here): it does not hold
+                return z3.BoolVal(False)
+            raise
 
     def eval_goal(self, expr, frame, extra=None):
         """Evaluate a spec expression that is about to be proved (spec functions may unfold)."""
@@ -1801,6 +1858,11 @@ class Engine:
         r = self.deref(recv)
         if isinstance(r, VObj):
             con = C.find_method(r.cls, name)
+            cur0 = getattr(self.vf, "current", None)
+            if cur0 is not None and self.call_depth == 0:
+                ov = cur0.options.get("callee_contracts", {}).get(f"{r.cls}.{name}")
+                if ov is not None:
+                    con = C.lookup(*ov)
             if con is not None:
                 cur = getattr(self.vf, "current", None)
                 if cur is not None and (con.func in cur.inline):
@@ -2063,6 +2125,9 @@ class Engine:
                 self.set_attr(tgt, parts[-1], self.eval_spec(ex, cfr, extra=env), node)
             if con.returns == "self":
                 res = args[0]
+            elif con.options.get("result_is"):
+                # the result is (an alias of) a value in the post-state, e.g. a field of self
+                res = self.eval_spec(con.options["result_is"], cfr, extra=env)
             elif con.returns.startswith("iter:"):
                 # an iterable whose items have a declared type and assumed properties (item_ensures)
                 res = VOpaque(tag=f"iter:{con.func}")
